@@ -25,6 +25,8 @@ pub enum Ev {
     Published,
     /// what the publication just counted was about: (file id, version attached to it)
     PublishedFor(u32, i32),
+    /// the calling thread is about to release an analysis snapshot
+    SnapshotDropped,
 }
 
 type Callback = Arc<dyn Fn(Ev) + Send + Sync>;
@@ -36,6 +38,11 @@ pub static TASKS_ENDED: AtomicU64 = AtomicU64::new(0);
 pub static PUBLISHED: AtomicU64 = AtomicU64::new(0);
 
 pub fn set_callback(cb: Option<Callback>) {
+    // the release of an analysis snapshot is reported by the ide crate: forward it as an event
+    ide::verif::set_snapshot_dropped_callback(match &cb {
+        Some(_) => Some(Arc::new(|| point(Ev::SnapshotDropped))),
+        None => None,
+    });
     *CALLBACK.write().unwrap() = cb;
 }
 
